@@ -16,9 +16,13 @@ CLAIMS = {}
 
 
 def claim(pid, technique, text, note, ref):
-    from tools.manifest_table import ROUND3
+    from tools.manifest_table import ROUND3, ROUND4
     if pid in ROUND3:
         text = text.rstrip() + " Added after the third seed round: " + ROUND3[pid]
+    if pid in ROUND4:
+        text = text.rstrip() + " " + ROUND4[pid]
+        technique = technique + " + two-party typestate product of the dilation machines (abstract interpretation of Manager / TrafficTimer / Connector sources, EF-reachability)"
+        note = note + "; T5 (link and mailbox-channel model of the two-party product)"
     CLAIMS[pid] = (technique, text, note, ref)
 
 
